@@ -624,7 +624,13 @@ macro_rules! mul_div_fallback {
                     self.overflowing_div(rhs)
                 } else {
                     const NBITS: u32 = <$Single>::NBITS;
-                    let lhs2 = (self >> (NBITS - frac_nbits), (self << frac_nbits) as $Uns);
+                    // with no integer bits the whole operand moves into the high word
+                    let lo = if frac_nbits == NBITS {
+                        0
+                    } else {
+                        (self << frac_nbits) as $Uns
+                    };
+                    let lhs2 = (self >> (NBITS - frac_nbits), lo);
                     let (quot2, _) = rhs.div_rem_from(lhs2);
                     let quot = quot2.1 as $Single;
                     let overflow = if_signed_unsigned! {
